@@ -4,7 +4,7 @@ from ..gen.checks import GenCheck, COMMON_ASSUMPTIONS
 
 ENGINE = "dgen+refsem"
 TECHNIQUE = "runtime monitoring: random well-formed designs emitted as real Transactron objects, simulated under hostile input valuations; per-cycle oracle = independent reference semantics over sampled run/data/witness signals"
-CHECK = GenCheck("C01", ("C01:",), {"p_call": 0.5, "p_xmod_conflict": 0.4, "p_elif_diamond": 0.4}, scheds=("eager", "rr"), library=True, suite=True, nontrivial_counter="exclusive_method_contended_cycles")
+CHECK = GenCheck("C01", ("C01:",), {"p_call": 0.5, "p_xmod_conflict": 0.6, "xmod_shared_call": True, "p_elif_diamond": 0.4}, scheds=("eager", "rr"), library=True, suite=True, nontrivial_counter="exclusive_method_contended_cycles")
 shards, run_shard = CHECK.shards, CHECK.run_shard
 ASSUMPTIONS = COMMON_ASSUMPTIONS
 RULE = ("[plus the repository's own tests run with the transaction sanitizer attached to every simulator they create - two files in the quick tier, the whole suite in the thorough tier; test outcomes are not verdicts] [plus a realistic second workload: library components (FIFOs, stack, connectors, memories, CAM, allocators, metrics) under the hostile component driver with the design-independent transaction sanitizer vf/txsan.py attached] random well-formed designs under both schedulers, all valuations when <= 10 input bits else biased random valuations (per-bit bias re-drawn every 25 cycles from {0.1,0.5,0.9,0.97}); oracle (a): per exclusive method at most one active call site; oracle (b): two co-running transactions reach a shared exclusive method only through chains diverging in different alternatives of one If/Switch/FSM (or merging in a nonexclusive ancestor); a design is non-trivial if in some cycle >= 2 call sites of one exclusive method had ready callers; distinct = (design shape signature, scheduler)")
